@@ -617,7 +617,14 @@ func main() {
 						}
 						got = int64(out[0][p])
 					}
-					if got != exp || got2 != exp2 {
+					congr := map[string]bool{"Lpwpoly": true, "Kpwpoly": true, "Lntt": true, "Kntt": true, "Linvntt": true, "Kinvntt": true, "Lacc": true}
+					if congr[op] {
+						// for products and transforms the property is equality modulo q (the representative is an implementation choice)
+						if mod(got) != mod(exp) {
+							fail(i, p, exp, got)
+							ok = false
+						}
+					} else if got != exp || got2 != exp2 {
 						fail(i, p, exp, got)
 						ok = false
 					}
